@@ -87,7 +87,7 @@ PROPS["C02"] = {
     "module": "CqlVerif.Props.C02",
     "gens": ["policy"],
     "race": True,
-    "streams": [CORE_STREAM, STORM_STREAM, {"name": "late", "quick": 40, "thorough": 3000}, {"name": "bytes", "quick": 300, "thorough": 20000}, {"name": "race", "quick": 0, "thorough": 20, "cache": False, "confirm": False}],
+    "streams": [CORE_STREAM, STORM_STREAM, {"name": "late", "quick": 40, "thorough": 3000}, {"name": "bytes", "quick": 300, "thorough": 20000}, {"name": "ks", "quick": 400, "thorough": 10000}, {"name": "race", "quick": 0, "thorough": 20, "cache": False, "confirm": False}],
     "shrink": False,
     "claim": "Lean theorems streams_partition, wire_matches_pending and route_correct over Model/Core for all interleavings, stream-id choices, recycling and exhaustion; tied to the code by the core and storm e2e streams (tokens echoed by the backends, Routed oracle) and by the late stream (one backend connection over histories of thousands of requests: internal requests abandoned by their caller and answered late while the 2048 stream ids are recycled)",
     "note": "trusted: Lean kernel, hand-written model + e2e correspondence; sync.Map/channel linearizability assumed; backends that answer a stream twice are C17's subject",
